@@ -87,6 +87,11 @@ class Scenario:
         self.result = None
         self.value = None
         self.error = None
+        self.wall_offset = 0.0      # what the wall clock (time.time) has been stepped by; the loop's monotonic time is unaffected
+
+    def step_wall(self, seconds):
+        """The wall clock is set forwards / backwards (NTP step, operator correction, resume): time.time() jumps, timers do not."""
+        self.wall_offset += seconds
 
     def now_ms(self):
         return int(round(self.loop.time() * 1000))
@@ -116,7 +121,7 @@ class Scenario:
             lib_logger.propagate = False
             lib_logger.setLevel(logging.DEBUG)
             logging.disable(logging.NOTSET)
-        _time.time = lambda: BASE + loop._vt + EPS
+        _time.time = lambda: BASE + loop._vt + EPS + self.wall_offset
         asyncio.set_event_loop(loop)
         main = None
         try:
